@@ -84,6 +84,21 @@ def generate(seed, tier="quick"):
                         for e in t["events"]:
                             if e.get("site") == sid and e.get("t") == "cmp" and len(e.get("vals", [])) == 1:
                                 e["vals"] = e["vals"] * 3
+        # user-controlled parts inside constructor calls, equal to the default of their field, evaluated repeatedly
+        if xr.random() < 0.3:
+            n += 1
+            sid = f"dcu{n}"
+            arg, good, bad = xr.choice([
+                ('DCD(x=Is(0), y="y")', ["dc", "DCD", [["x", ["int", 0]], ["y", ["str", "y"]]]], ["dc", "DCD", [["x", ["int", 1]]]]),
+                ('DC(a=1, b=Is(None))', ["dc", "DC", [["a", ["int", 1]]]], ["dc", "DC", [["a", ["int", 2]]]]),
+                ('AT(p=1, q=snapshot(3))', ["dc", "AT", [["p", ["int", 1]]]], ["dc", "AT", [["p", ["int", 1]], ["q", ["int", 4]]]]),
+                ('PM(m=0, n=Is(1))', ["dc", "PM", [["m", ["int", 0]]]], ["dc", "PM", [["m", ["int", 5]]]]),
+                ('NTD(f=1, g=Is(5))', ["dc", "NTD", [["f", ["int", 1]]]], ["dc", "NTD", [["f", ["int", 1]], ["g", ["int", 6]]]]),
+            ])
+            f["sites"][sid] = {"op": "eq", "place": xr.choice(["func", "lam"]), "arg": arg, "prev": good, "wrapped": True}
+            seq = [good, bad, good]
+            xr.shuffle(seq)
+            f["tests"].append({"name": f"test_dcu{n}", "events": [{"t": "cmp", "eid": f"dcu{n}_{i}", "site": sid, "vals": [v], "style": "rec", "reflect": xr.random() < 0.3} for i, v in enumerate(seq)]})
         # a second operation on one snapshot
         if xr.random() < 0.3:
             n += 1
